@@ -213,3 +213,19 @@ def corpus_histories():
         # reciprocal directed arcs closing at the same instant, one of them prolonged
         [A(1, 2, 0, 3), A(2, 1, 1, 3), A(1, 2, 3, 5)], [A(2, 1, 0, 2), A(1, 2, 0, 2), A(2, 1, 2, 4), A(1, 2, 2)],
     ]
+
+
+def shift_times(ops, k):
+    """the same history with every timestamp moved by k (far beyond 2**53, or below zero)"""
+    out = []
+    sh = lambda x: None if x is None else x + k
+    for op in ops:
+        o = list(op)
+        if o[0] == "add":
+            o[3], o[4] = sh(o[3]), sh(o[4])
+        elif o[0] == "addfrom":
+            o[2], o[3] = sh(o[2]), sh(o[3])
+        elif o[0] in ("path", "star", "cycle", "fpath", "fstar", "fcycle"):
+            o[2] = sh(o[2])
+        out.append(o)
+    return out
